@@ -95,6 +95,20 @@ def cmdUnit (toks : List String) : String :=
     s!"dim={dimKey (u.dimOf env)} mag={magKey (u.magOf env)}"
   | _ => "bad-op"
 
+/-- `packlt dim|mag <pack> <pack>` → `InStandardPackOrder` of the two packs (1 / 0). -/
+def cmdPackLt (args : List String) : String :=
+  match args with
+  | ["dim", a, b] =>
+    match parseDim? a, parseDim? b with
+    | some x, some y => if Pack.packLt dimLt x y then "1" else "0"
+    | _, _ => "bad-op"
+  | ["mag", a, b] =>
+    match parseMag? a, parseMag? b with
+    | some x, some y => if Pack.packLt MagBase.lt x y then "1" else "0"
+    | _, _ => "bad-op"
+  | _ => "bad-op"
+
 def dispatchC02 : List String → Option String
   | "unit" :: args => some (cmdUnit args)
+  | "packlt" :: args => some (cmdPackLt args)
   | _ => none
